@@ -26,6 +26,7 @@ type Glyph struct {
 	Width    float64   // advance width: nominalWidthX + w if a width operand is present, else defaultWidthX
 	HasWidth bool      // whether the charstring carried an explicit width operand
 	MaxStack int       // maximal operand stack depth observed
+	Seac     bool      // the charstring ended with the deprecated seac form of endchar (composition not modelled)
 }
 
 // Env is the environment a charstring is executed in.
@@ -279,7 +280,13 @@ func (ip *interp) run(code []byte, depth int) error {
 		case 14: // endchar
 			n := len(ip.stack)
 			if !ip.cleared && (n == 4 || n == 5) {
-				return ErrSeac
+				// the deprecated seac form "adx ady bchar achar endchar" (TN5177 appendix C), with
+				// an optional leading width; the accented character itself is not composed here
+				ip.takeWidth(n == 5)
+				ip.g.Seac = true
+				ip.stack = ip.stack[:0]
+				ip.ended = true
+				return nil
 			}
 			if !ip.cleared && n == 1 {
 				ip.takeWidth(true)
